@@ -329,4 +329,11 @@ def r8_status_and_mapping_tables(ctx: Ctx) -> None:
     r2_mirror_construction(ctx)
 
 
-RULES = [r1_options_reach_assembler, r2_mapping_choices_total, r3_defines_are_integers, r4_one_pipeline, r5_symbol_file, r6_copier_header_shift, r7_writers_place_blocks, r8_status_and_mapping_tables, rb_binding_agreement, rm_no_process_lifetime_results, ru_names_bound]
+def r9_label_values(ctx: Ctx) -> None:
+    """the symbol file lists the bank and offset of each label value: a label is stored with its logical address (C08.R4)"""
+    from .c08 import r4_export as _c08_r4_export
+
+    _c08_r4_export(ctx)
+
+
+RULES = [r1_options_reach_assembler, r2_mapping_choices_total, r3_defines_are_integers, r4_one_pipeline, r5_symbol_file, r6_copier_header_shift, r7_writers_place_blocks, r8_status_and_mapping_tables, r9_label_values, rb_binding_agreement, rm_no_process_lifetime_results, ru_names_bound]
